@@ -213,7 +213,8 @@ def run_topology(topo, seed, horizon_s=40, listeners=(), faults=None, trace=Fals
     fl = []
     for f in (faults or []):
         fl.append((f['t'], f['kind'], objs[f['node']], f.get('arg')))
-    inp, _ = reference(topo)
+    inp = {}
+    if not faults: inp, _ = reference(topo)
     want = {n: len(v) for n, v in inp.items()}
     def done(net):
         return all(len(objs[n].log) >= want[n] for n in want if objs[n].mq.receiver is not None and objs[n].alive) and not net.inflight
